@@ -41,9 +41,24 @@ func FmtDiffs(input string) ([]FmtDiff, error) {
 		lines: strings.Split(input, "\n"),
 	}
 
-	out := make([]FmtDiff, 0, len(all))
+	// Fragments which share a source line (`} }`, `} // comment`, a statement
+	// after a multi-line block comment) are printed on separate lines; they
+	// are merged into one edit so that edits never overlap.
+	merged := make([]FmtDiff, 0, len(all))
+	for _, diff := range all {
+		if n := len(merged); n > 0 && diff.FromLine < merged[n-1].ToLine {
+			merged[n-1].NewText += diff.NewText
+			if diff.ToLine > merged[n-1].ToLine {
+				merged[n-1].ToLine = diff.ToLine
+			}
+			continue
+		}
+		merged = append(merged, diff)
+	}
+
+	out := make([]FmtDiff, 0, len(merged))
 	lastEnd := -1
-	for idx, diff := range all {
+	for idx, diff := range merged {
 		if idx == 0 {
 			// Remove any leading empty lines
 			if diff.FromLine > 0 {
@@ -53,10 +68,9 @@ func FmtDiffs(input string) ([]FmtDiff, error) {
 					NewText:  "",
 				})
 			}
-		} else if diff.FromLine > lastEnd+1 {
+		} else if diff.FromLine > lastEnd && lines.rangeLines(lastEnd, diff.FromLine) != "\n" {
 			// FromLine == LastEnd  means no gap
-			// FromLine == LastEnd + 1  is one line gap, OK
-			// FromLine > LastEnd + 1 should be one line
+			// Any gap should be exactly one empty line, as printed by Fmt
 			out = append(out, FmtDiff{
 				FromLine: lastEnd,
 				ToLine:   diff.FromLine,
